@@ -47,6 +47,7 @@ pub fn market_outcome(id: &'static str, case: &MarketCase) -> Outcome {
                     ("market_offgrid_creates", f.offgrid_create),
                     ("market_toggles", f.toggles),
                     ("market_ops_through_get_order_book_mut", f.direct_ops),
+                    ("market_clock_moves_of_one_book_only", f.direct_clock_moves),
                     ("market_ops_after_which_no_market_data_getter_was_called", f.quiet_ops),
                 ],
                 result: res.err(),
@@ -244,6 +245,12 @@ pub fn parts(id: &'static str, tier: Tier) -> Option<(Vec<Part<Case>>, String)> 
             let mut z = c.clone();
             z.zero_vol_pct = 12;
             v.push(market_part("market-random-dense-with-zero-volumes", z, 4, tier.pick(40_000, 800_000)));
+            // arbitrary prices (C14 has no clause about prices): bids resting at price 0, asks at 2^32-1, off-grid
+            // requests that market and stand-alone book must both reject
+            let mut ap = c.clone();
+            ap.offgrid = true;
+            ap.w_modify = 12;
+            v.push(market_part("market-random-arbitrary-prices", ap, 4, tier.pick(40_000, 800_000)));
             c.wide = true;
             v.push(market_part("market-random-wide", c, 4, tier.pick(40_000, 800_000)));
             Some((v, "A market case is one interleaved operation history over 1..4 assets (8, 11, 12 or 16 assets in 15 % of the cases of two parts) with per-asset tick sizes on Market<A,L>, driven in lock-step with A stand-alone real OrderBook<L> that receive only their own operations and every clock / trading broadcast; after EVERY operation each asset's full snapshot must equal its stand-alone book's, returned ids must be (asset, local id), and every all-asset query must equal the per-asset values in asset order. Non-trivial: >= 2 assets hold resting orders and orders with equal local ids differ across assets.".to_string()))
@@ -254,6 +261,13 @@ pub fn parts(id: &'static str, tier: Tier) -> Option<(Vec<Part<Case>>, String)> 
             c.w_reload = 6;
             c.w_trading = 2;
             let mut v = vec![market_part("market-random-reload", c.clone(), 16, tier.pick(30_000, 600_000))];
+            // operations applied to an asset's own book through get_order_book_mut, incl. clock moves of one book
+            // only (the books of the market then show different clocks when the snapshot is taken) and per-book flags
+            let mut dd = c.clone();
+            dd.direct_pct = 35;
+            dd.w_advance = 10;
+            dd.w_trading = 6;
+            v.push(market_part("market-random-reload-direct-book-access", dd, 4, tier.pick(30_000, 600_000)));
             let mut b = GenCfg::base(tier.pick(40, 120));
             b.w_modify = 10;
             b.w_trading = 3;
@@ -277,7 +291,7 @@ pub fn parts(id: &'static str, tier: Tier) -> Option<(Vec<Part<Case>>, String)> 
                     },
                 });
             }
-            Some((v, "Market cases: Market<A, L> snapshots (A in 1..4, and 8, 11, 12, 16 in 15 % of the cases) at generated positions, original and reloaded market driven in lock-step (non-trivial: snapshot with >= 2 resting orders at one price and trades after the reload). Truncation cases: the snapshot file of a generated book / market state (save_json, compact or pretty) is cut at every byte offset (files <= 700 bytes) or at the first 160, last 160 and 96 (quick) / 512 (thorough) generated offsets, each truncated file passed to load_json, which must return Err (Ok or a panic is a violation); additionally the prefixes (all of them for snapshots <= 1500 bytes, else the same offsets) are parsed through the in-memory route (non-trivial: snapshot longer than 200 bytes).".to_string()))
+            Some((v, "Market cases: Market<A, L> snapshots (A in 1..4, and 8, 11, 12, 16 in 15 % of the cases) at generated positions (in one part with 35 % of the operations applied to an asset's own book through get_order_book_mut, incl. clock moves and trading flags of one book only), original and reloaded market driven in lock-step (non-trivial: snapshot with >= 2 resting orders at one price and trades after the reload). Truncation cases: the snapshot file of a generated book / market state (save_json, compact or pretty) is cut at every byte offset (files <= 700 bytes) or at the first 160, last 160 and 96 (quick) / 512 (thorough) generated offsets, each truncated file passed to load_json, which must return Err (Ok or a panic is a violation); additionally the prefixes (all of them for snapshots <= 1500 bytes, else the same offsets) are parsed through the in-memory route (non-trivial: snapshot longer than 200 bytes).".to_string()))
         }
         "C12" => {
             let mut c = GenCfg::base(len);
